@@ -24,12 +24,13 @@ open TmVerif.Guards TmVerif.Facts
 /-- `v` satisfies the implication table. -/
 def Axioms (v : Nat → Bool) : Prop := ∀ a ∈ axioms, eval v a.hyp = true → eval v a.concl = true
 
-/-- A use is consistent: whenever it is generated, some declaration of the identifier is generated too (an
-`.Options.IsEnabled "x"` guard of a declaration counts as true: the user supplies what customImpl disables). -/
-def Consistent (u : TmplUse) : Prop :=
-  ∀ v : Nat → Bool, Axioms v → eval v (useGuard u) = true → eval v (defGuard u.name) = true
+/-- A use `u` of an identifier with declaration sites `defs` is consistent: whenever the use is generated, some
+declaration is generated too (an `.Options.IsEnabled "x"` guard of a declaration counts as true: the user supplies
+what customImpl disables). -/
+def Consistent (defs : List TmplDef) (u : TmplUse) : Prop :=
+  ∀ v : Nat → Bool, Axioms v → eval v (useGuard u) = true → eval v (defGuardOf defs) = true
 
-/-- The tableau is sound for every pair of guards, every implication table and every valuation. -/
+/-- The decision procedure is sound for every pair of guards, every implication table and every valuation. -/
 theorem C17_checkImp_sound (axs : List Ax) (u d : GF) (h : checkImp axs u d = true) (v : Nat → Bool)
     (hax : ∀ a ∈ axs, eval v a.hyp = true → eval v a.concl = true) (hu : eval v u = true) : eval v d = true :=
   checkImp_sound axs u d h v hax hu
@@ -37,31 +38,28 @@ theorem C17_checkImp_sound (axs : List Ax) (u d : GF) (h : checkImp axs u d = tr
 example : checkImp [⟨.atom 0, .atom 1⟩] (.and (.atom 2) (.atom 0)) (.or (.atom 1) (.atom 3)) = true := by decide
 example : checkImp [⟨.atom 0, .atom 1⟩] (.atom 2) (.atom 1) = false := by decide
 
-theorem allUsesOk_spec (h : allUsesOk = true) : ∀ u ∈ c17Uses, (∃ n ∈ c17Names, n.id = u.name) →
-    excluded u = true ∨ checkImp axioms (useGuard u) (defGuard u.name) = true := by
-  intro u hu ⟨n, hn, hid⟩
-  simp only [allUsesOk, List.all_eq_true] at h
-  have := h n hn u (by simp [List.mem_filter, hu, hid])
-  simpa [hid] using this
+/-- The facts are grouped by identifier: group `i` holds ALL declaration sites and ALL use sites of the identifier
+with name id `i` (and of no other). -/
+theorem C17_groups_well_formed : groupsWellFormed = true := by decide +kernel
 
 /-- THE OBLIGATION (partial: all pairs except exactly the listed ones). On the current tree every use of a
 template-declared identifier, other than the uses listed in `c17KnownInconsistent` (findings, see
-`C17_known_inconsistent_exact`) and `c17NotPropositional` (element-level, build sweep only), is consistent under
-every valuation of the atoms that satisfies the implication table. -/
-theorem C17_guards_consistent_partial : ∀ u ∈ c17Uses, excluded u = false → Consistent u := by
+`C17_known_inconsistent_exact`) and `c17NotPropositional` (element-level, build sweep only), is consistent with
+the declaration sites of that identifier under every valuation of the atoms that satisfies the implication
+table. -/
+theorem C17_guards_consistent_partial :
+    ∀ g ∈ c17Groups, ∀ u ∈ g.uses, excluded u = false → Consistent g.defs u := by
   have h1 : allUsesOk = true := by decide +kernel
-  have h2 : usesNamed = true := by decide +kernel
-  intro u hu hex v hax huse
-  have hn : ∃ n ∈ c17Names, n.id = u.name := by
-    simp only [usesNamed, List.all_eq_true, List.any_eq_true, beq_iff_eq] at h2
-    exact h2 u hu
-  rcases allUsesOk_spec h1 u hu hn with h | h
+  intro g hg u hu hex v hax huse
+  simp only [allUsesOk, List.all_eq_true, Bool.or_eq_true] at h1
+  rcases h1 g hg u hu with h | h
   · rw [hex] at h; cases h
   · exact checkImp_sound axioms _ _ h v hax huse
 
 /-- The full statement: every use (outside the not-propositional ones) is consistent. It does NOT hold on the
 current tree (`C17_guards_consistent_full_refuted`). -/
-def C17_guards_consistent_full : Prop := ∀ u ∈ c17Uses, isNotProp u = false → Consistent u
+def C17_guards_consistent_full : Prop :=
+  ∀ g ∈ c17Groups, ∀ u ∈ g.uses, isNotProp u = false → Consistent g.defs u
 
 /-- Non-vacuity: the obligation covers uses (453 of 462 on the pinned tree). -/
 example : (c17Uses.filter (fun u => !excluded u)).length ≥ 400 := by decide +kernel
@@ -76,29 +74,35 @@ theorem C17_tables_resolve : idsAreOrdinals = true ∧ atomTextsFacts = atomText
     notPropTextsWritten = notPropTextsHinted :=
   ⟨by decide +kernel, rfl, rfl, rfl, rfl⟩
 
-/-- Every entry of `c17KnownInconsistent` (through its hint: name, file, define block, valuation) matches at least
-one use, and every use it matches is REALLY inconsistent: the listed valuation (plus every `.Options.IsEnabled`
-atom) satisfies the implication table and the use guard and falsifies the guard of every declaration. So the
-exception list cannot hide a consistent pair, and a repaired template breaks this theorem (the entry then has to
-go). -/
-theorem C17_known_inconsistent_exact : ∀ k ∈ c17KnownIds,
-    (∃ u ∈ c17Uses, useIs u k.1 k.2.1 k.2.2.1 = true) ∧
-    ∀ u ∈ c17Uses, useIs u k.1 k.2.1 k.2.2.1 = true →
-      ∃ v : Nat → Bool, Axioms v ∧ eval v (useGuard u) = true ∧ eval v (defGuard u.name) = false := by
+/-- Every entry of `c17KnownInconsistent` (through its hint: name id, file, define block, valuation) matches at
+least one use of that identifier, and every use it matches is REALLY inconsistent: the listed valuation (plus every
+`.Options.IsEnabled` atom) satisfies the implication table and the use guard and falsifies the guard of every
+declaration. So the exception list cannot hide a consistent pair, and a repaired template breaks this theorem
+(the entry then has to go). -/
+theorem C17_known_inconsistent_exact : ∀ k ∈ c17KnownIds, ∃ g, c17Groups[k.1]? = some g ∧
+    (∃ u ∈ g.uses, useIs u k.1 k.2.1 k.2.2.1 = true) ∧
+    ∀ u ∈ g.uses, useIs u k.1 k.2.1 k.2.2.1 = true →
+      ∃ v : Nat → Bool, Axioms v ∧ eval v (useGuard u) = true ∧ eval v (defGuardOf g.defs) = false := by
   have h : c17KnownIds.all knownEntryOk = true := by decide +kernel
   intro k hk
   have hk' := List.all_eq_true.mp h k hk
-  simp only [knownEntryOk, Bool.and_eq_true, Bool.not_eq_true', List.all_eq_true] at hk'
-  obtain ⟨hne, hall⟩ := hk'
-  constructor
-  · cases hf : c17Uses.filter (fun u => useIs u k.1 k.2.1 k.2.2.1) with
-    | nil => rw [hf] at hne; simp at hne
-    | cons u rest =>
-      have : u ∈ c17Uses.filter (fun u => useIs u k.1 k.2.1 k.2.2.1) := by rw [hf]; simp
-      rw [List.mem_filter] at this
-      exact ⟨u, this.1, this.2⟩
-  · intro u hu hm
-    exact refutes_sound axioms _ _ _ (hall u (by simp [List.mem_filter, hu, hm]))
+  simp only [knownEntryOk, defGuard] at hk'
+  cases hg : c17Groups[k.1]? with
+  | none => simp [hg] at hk'
+  | some g =>
+    refine ⟨g, rfl, ?_⟩
+    simp only [hg, Option.map_some, Option.getD_some, Bool.and_eq_true, Bool.not_eq_true',
+      List.all_eq_true] at hk'
+    obtain ⟨hne, hall⟩ := hk'
+    constructor
+    · cases hf : g.uses.filter (fun u => useIs u k.1 k.2.1 k.2.2.1) with
+      | nil => rw [hf] at hne; simp at hne
+      | cons u rest =>
+        have : u ∈ g.uses.filter (fun u => useIs u k.1 k.2.1 k.2.2.1) := by rw [hf]; simp
+        rw [List.mem_filter] at this
+        exact ⟨u, this.1, this.2⟩
+    · intro u hu hm
+      exact refutes_sound axioms _ _ _ (hall u (by simp [List.mem_filter, hu, hm]))
 
 /-- The findings, at the level of guards: the full statement is false on the current tree (witness: the first
 entry of the table — the use of `NodeType` in parser_tables.go under a valuation where the grammar has a parser
@@ -108,14 +112,22 @@ theorem C17_guards_consistent_full_refuted : ¬ C17_guards_consistent_full := by
   have hk0 : c17KnownIds.head?.isSome = true := by decide +kernel
   obtain ⟨k, hk⟩ := Option.isSome_iff_exists.mp hk0
   have hmem : k ∈ c17KnownIds := List.mem_of_head? hk
-  obtain ⟨⟨u, hu, hm⟩, hall⟩ := C17_known_inconsistent_exact k hmem
+  obtain ⟨g, hg, ⟨u, hu, hm⟩, hall⟩ := C17_known_inconsistent_exact k hmem
   obtain ⟨v, hax, huse, hdef⟩ := hall u hu hm
-  have hnp : c17KnownIds.all (fun k => (c17Uses.filter (fun u => useIs u k.1 k.2.1 k.2.2.1)).all
-      (fun u => !isNotProp u)) = true := by decide +kernel
+  have hnp : c17KnownIds.all (fun k => !c17NotPropIds.any (fun (n, _, _) => n == k.1)) = true := by decide +kernel
   have hnp' : isNotProp u = false := by
-    have := List.all_eq_true.mp (List.all_eq_true.mp hnp k hmem) u (by simp [List.mem_filter, hu, hm])
-    simpa using this
-  have := hfull u hu hnp' v hax huse
+    have h1 := List.all_eq_true.mp hnp k hmem
+    simp only [Bool.not_eq_true', List.any_eq_false] at h1
+    simp only [isNotProp, List.any_eq_false]
+    intro x hx
+    have h2 := h1 x hx
+    obtain ⟨n, f, t⟩ := x
+    simp only [useIs, Bool.and_eq_true, beq_iff_eq] at hm
+    simp only [beq_iff_eq] at h2
+    simp only [useIs, Bool.and_eq_true, beq_iff_eq]
+    intro hn
+    exact h2 (hn.1.1.symm.trans hm.1.1)
+  have := hfull g (List.mem_of_getElem? hg) u hu hnp' v hax huse
   rw [hdef] at this; cases this
 
 /-- The uses listed as not propositional are exactly of that kind: each entry matches a use, and every
@@ -124,12 +136,12 @@ theorem C17_not_propositional_exact : c17NotPropIds.all notPropEntryOk = true :=
 
 /-- No identifier is declared twice: two declaration sites of one name (in files of one package) are never
 generated together, under every valuation satisfying the implication table. -/
-theorem C17_no_duplicate_definitions : ∀ n ∈ c17Names, ∀ g h : GF,
-    List.Sublist [g, h] ((c17Defs.filter (fun d => d.name == n.id)).map defSiteGuardRaw) →
+theorem C17_no_duplicate_definitions : ∀ grp ∈ c17Groups, ∀ g h : GF,
+    List.Sublist [g, h] (grp.defs.map defSiteGuardRaw) →
     ∀ v : Nat → Bool, Axioms v → ¬ (eval v g = true ∧ eval v h = true) := by
   have hd : noDuplicates = true := by decide +kernel
-  intro n hn g h hsub v hax ⟨hg, hh⟩
-  have hgo := List.all_eq_true.mp hd n hn
+  intro grp hgrp g h hsub v hax ⟨hg, hh⟩
+  have hgo := List.all_eq_true.mp hd grp hgrp
   have key : ∀ l : List GF, noDupGo l = true → List.Sublist [g, h] l → checkImp axioms (.and g h) GF.ff = true := by
     intro l
     induction l with
@@ -140,9 +152,7 @@ theorem C17_no_duplicate_definitions : ∀ n ∈ c17Names, ∀ g h : GF,
       cases hs with
       | cons _ hs' => exact ih hgo.2 hs'
       | cons_cons _ hs' =>
-        have : h ∈ rest := by
-          have := hs'.subset (List.mem_singleton_self h)
-          exact this
+        have : h ∈ rest := hs'.subset (List.mem_singleton_self h)
         exact hgo.1 h this
   have := checkImp_sound axioms _ _ (key _ hgo hsub) v hax (by simp [eval, hg, hh])
   simp [GF.ff, eval] at this
